@@ -162,7 +162,48 @@ def run_buffer_history(job):
     return out
 
 
+def serve():
+    """C09: a long-lived process answering queries about a project on disk, one new Script per request.
+    Protocol: one JSON object per line on stdin -> one JSON object per line on stdout."""
+    import jedi
+    import parso.cache
+    from jedi.api.environment import SameEnvironment
+    decisions = []
+    orig = parso.cache.load_module
+
+    def load_module(hashed_grammar, file_io, cache_path=None):
+        try:
+            pt = file_io.get_last_modified()
+            item = parso.cache.parser_cache.get(hashed_grammar, {}).get(file_io.path)
+        except Exception:  # noqa
+            pt, item = None, None
+        r = orig(hashed_grammar, file_io, cache_path=cache_path)
+        if pt is not None:
+            in_mem_after = parso.cache.parser_cache.get(hashed_grammar, {}).get(file_io.path)
+            decisions.append({'path': os.path.basename(str(file_io.path)), 'had': item is not None,
+                              'fresh_enough': bool(item is not None and pt <= item.change_time),
+                              'hit': bool(r is not None and item is not None and in_mem_after is item)})
+        return r
+    parso.cache.load_module = load_module
+    import parso.grammar
+    if getattr(parso.grammar, 'load_module', None) is orig:
+        parso.grammar.load_module = load_module
+    env = SameEnvironment()
+    for line in sys.stdin:
+        req = json.loads(line)
+        if req.get('cache_dir'):
+            jedi.settings.cache_directory = req['cache_dir']
+        del decisions[:]
+        proj = jedi.Project(req['project'])
+        s = jedi.Script(req['src'], path=req.get('path'), project=proj, environment=env)
+        res = answers(s, req['queries'])
+        sys.stdout.write(json.dumps({'answers': res, 'decisions': list(decisions)}) + '\n')
+        sys.stdout.flush()
+
+
 def main():
+    if sys.argv[1] == 'serve':
+        return serve()
     mode, jp, op = sys.argv[1:4]
     jobs = json.load(open(jp))
     if mode == 'history':
